@@ -88,7 +88,7 @@ impl Property for C10 {
         "C10"
     }
     fn cases(&self, cfg: &Cfg) -> u64 {
-        cfg.tier.pick(150, 5_000) + GREETINGS.len() as u64
+        cfg.tier.pick(300, 5_000) + GREETINGS.len() as u64
     }
     fn run_case(&self, cfg: &Cfg, i: u64, acc: &mut Acc) {
         let ng = GREETINGS.len() as u64;
